@@ -55,7 +55,8 @@ type HarnessSpec struct {
 	Harness   string   `json:"harness"`
 	Pkg       string   `json:"pkg"` // "engine" or "prolog"
 	Instances int      `json:"instances"`
-	InstQuick []int    `json:"instances_quick,omitempty"` // subset for the quick tier (default: all)
+	InstQuick []int    `json:"instances_quick,omitempty"`
+	InstThorough      []int `json:"instances_thorough,omitempty"` // if set: the instances of the thorough tier (default: all) // subset for the quick tier (default: all)
 	Mode      string   `json:"mode"`
 	Solver    string   `json:"solver"`
 	TimeoutMS int      `json:"timeout_ms"`
@@ -443,6 +444,8 @@ func cmdCheck(args []string) int {
 		insts := []int{}
 		if *tier == "quick" && len(h.InstQuick) > 0 {
 			insts = h.InstQuick
+		} else if *tier == "thorough" && len(h.InstThorough) > 0 {
+			insts = h.InstThorough
 		} else {
 			for i := 0; i < h.Instances; i++ {
 				insts = append(insts, i)
